@@ -23,6 +23,8 @@ impl Gs {
             "spec": {}});
         if self.has_status {
             let mut st = json!({"address": self.address, "ports": self.ports.iter().map(|p| json!({"name": "default", "port": p})).collect::<Vec<_>>(), "state": self.state});
+            // a game server without ports has either an empty list or no `ports` key at all (as before its allocation)
+            if self.ports.is_empty() && self.address.len() % 2 == 0 { st.as_object_mut().unwrap().remove("ports"); }
             if let Some(c) = &self.counters { st["counters"] = Value::Object(c.iter().map(|(k, v)| (k.clone(), json!({"count": v, "capacity": 100}))).collect()); }
             if let Some(l) = &self.lists { st["lists"] = Value::Object(l.iter().map(|(k, v)| (k.clone(), json!({"capacity": 10, "values": v}))).collect()); }
             o["status"] = st;
@@ -83,12 +85,15 @@ async fn serve(listener: tokio::net::TcpListener, st: Arc<Mutex<MockState>>) {
                     let head = String::from_utf8_lossy(&buf[..end]).to_string();
                     buf.drain(..end + 4);
                     let target = head.lines().next().unwrap_or("").split(' ').nth(1).unwrap_or("").to_string();
+                    let scope = path_ns(&target);
                     if target.contains("watch=true") {
                         let (tx, mut rx) = mpsc::unbounded_channel::<String>();
                         st.lock().unwrap().watch_tx = Some(tx);
                         if sock.write_all(b"HTTP/1.1 200 OK\r\ncontent-type: application/json\r\ntransfer-encoding: chunked\r\n\r\n").await.is_err() { return; }
                         while let Some(line) = rx.recv().await {
                             if line == "<close>" { let _ = sock.write_all(b"0\r\n\r\n").await; return; }
+                            // events carry the namespace of their object in front; a namespaced watch only sees its own
+                            let line = match line.split_once('\u{1}') { Some((ns, l)) => { if !ns.is_empty() && scope.as_deref().is_some_and(|s| s != ns) { continue; } l.to_string() } None => line };
                             let body = format!("{line}\n");
                             if sock.write_all(format!("{:x}\r\n{}\r\n", body.len(), body).as_bytes()).await.is_err() { return; }
                         }
@@ -103,8 +108,8 @@ async fn serve(listener: tokio::net::TcpListener, st: Arc<Mutex<MockState>>) {
                     }
                     let body = { let mut s = st.lock().unwrap(); s.lists_served += 1; let rv = s.rv;
                         match s.page1.take() {
-                            Some(p1) => json!({"apiVersion": "agones.dev/v1", "kind": "GameServerList", "metadata": {"resourceVersion": rv.to_string(), "continue": "page-2", "remainingItemCount": 1}, "items": p1.iter().map(|g| g.json(rv)).collect::<Vec<_>>()}).to_string(),
-                            None => json!({"apiVersion": "agones.dev/v1", "kind": "GameServerList", "metadata": {"resourceVersion": rv.to_string()}, "items": s.list.iter().map(|g| g.json(rv)).collect::<Vec<_>>()}).to_string(),
+                            Some(p1) => json!({"apiVersion": "agones.dev/v1", "kind": "GameServerList", "metadata": {"resourceVersion": rv.to_string(), "continue": "page-2", "remainingItemCount": 1}, "items": p1.iter().filter(|g| scope.as_deref().is_none_or(|s| s == g.namespace)).map(|g| g.json(rv)).collect::<Vec<_>>()}).to_string(),
+                            None => json!({"apiVersion": "agones.dev/v1", "kind": "GameServerList", "metadata": {"resourceVersion": rv.to_string()}, "items": s.list.iter().filter(|g| scope.as_deref().is_none_or(|s| s == g.namespace)).map(|g| g.json(rv)).collect::<Vec<_>>()}).to_string(),
                         } };
                     if sock.write_all(format!("HTTP/1.1 200 OK\r\ncontent-type: application/json\r\ncontent-length: {}\r\n\r\n{}", body.len(), body).as_bytes()).await.is_err() { return; }
                 }
@@ -123,8 +128,14 @@ fn gen_gs(rng: &mut Rng, name: &str) -> Gs {
         lists: if rng.chance(1, 4) { Some(vec![(rng.pick(&["rooms", "players"]).to_string(), (0..rng.below(3)).map(|i| format!("r{i}")).collect())]) } else { None },
         labels: if rng.chance(1, 2) { vec![("region".to_string(), rng.pick(&["eu", "us"]).to_string())] } else if rng.chance(1, 12) { vec![("state".to_string(), "label-wins".to_string())] } else { vec![] },
         annotations: if rng.chance(1, 4) { vec![(rng.pick(&["note", "region"]).to_string(), "a".to_string())] } else { vec![] },
-        has_status: kind != 2, namespace: "default".into() }
+        has_status: kind != 2, namespace: ns_of(name).into() }
 }
+
+/// every name lives in one namespace (two objects of one name in two namespaces are the recorded finding's witness only)
+fn ns_of(name: &str) -> &'static str { match name { "gs-c" => "games", "gs-d" => "lobby", _ => "default" } }
+
+/// the namespace of a namespaced request path (`…/namespaces/<ns>/gameservers`), None for the cluster-wide one
+fn path_ns(target: &str) -> Option<String> { target.split('?').next()?.split("/namespaces/").nth(1)?.split('/').next().map(String::from) }
 
 async fn wait_for(adapter: &Ad, pred: impl Fn(&[passage_adapters::Target]) -> bool, ms: u64) -> Option<Vec<passage_adapters::Target>> {
     let deadline = tokio::time::Instant::now() + Duration::from_millis(ms);
@@ -236,14 +247,14 @@ pub fn run(a: &Args) {
                 }
             };
             for ev in &evs {
-                let send = |line: String| { if let Some(tx) = &st.lock().unwrap().watch_tx { let _ = tx.send(line); } };
+                let send = |ns: &str, line: String| { if let Some(tx) = &st.lock().unwrap().watch_tx { let _ = tx.send(format!("{ns}\u{1}{line}")); } };
                 let rv = { let mut s = st.lock().unwrap(); s.rv += 1; s.rv };
                 let what;
                 match ev {
-                    Ev::Add(g) => { what = format!("ADDED {}", g.name); send(json!({"type": "ADDED", "object": g.json(rv)}).to_string()); model.push(format!("ap:{}", g.tok())); store.insert((g.namespace.clone(), g.name.clone()), g.clone()); }
-                    Ev::Modify(g) => { what = format!("MODIFIED {} -> {}", g.name, g.state); send(json!({"type": "MODIFIED", "object": g.json(rv)}).to_string()); model.push(format!("ap:{}", g.tok())); store.insert((g.namespace.clone(), g.name.clone()), g.clone()); }
-                    Ev::Delete(g) => { what = format!("DELETED {}", g.name); send(json!({"type": "DELETED", "object": g.json(rv)}).to_string()); model.push(format!("de:{}", g.tok())); store.remove(&(g.namespace.clone(), g.name.clone())); }
-                    Ev::Bookmark => { what = "BOOKMARK".into(); send(json!({"type": "BOOKMARK", "object": {"apiVersion": "agones.dev/v1", "kind": "GameServer", "metadata": {"resourceVersion": rv.to_string()}}}).to_string()); }
+                    Ev::Add(g) => { what = format!("ADDED {}", g.name); send(&g.namespace, json!({"type": "ADDED", "object": g.json(rv)}).to_string()); model.push(format!("ap:{}", g.tok())); store.insert((g.namespace.clone(), g.name.clone()), g.clone()); }
+                    Ev::Modify(g) => { what = format!("MODIFIED {} -> {}", g.name, g.state); send(&g.namespace, json!({"type": "MODIFIED", "object": g.json(rv)}).to_string()); model.push(format!("ap:{}", g.tok())); store.insert((g.namespace.clone(), g.name.clone()), g.clone()); }
+                    Ev::Delete(g) => { what = format!("DELETED {}", g.name); send(&g.namespace, json!({"type": "DELETED", "object": g.json(rv)}).to_string()); model.push(format!("de:{}", g.tok())); store.remove(&(g.namespace.clone(), g.name.clone())); }
+                    Ev::Bookmark => { what = "BOOKMARK".into(); send("", json!({"type": "BOOKMARK", "object": {"apiVersion": "agones.dev/v1", "kind": "GameServer", "metadata": {"resourceVersion": rv.to_string()}}}).to_string()); }
                     Ev::RelistFail(p1, l) => {
                         what = "410 Gone + re-list interrupted after its first page + retried re-list".into();
                         sentinel += 1;
@@ -304,7 +315,7 @@ pub fn run(a: &Args) {
                 sentinel += 1;
                 let s = Gs { name: format!("sentinel-{sentinel}"), address: "127.0.0.9".into(), ports: vec![9], state: "Ready".into(), counters: None, lists: None, labels: vec![], annotations: vec![], has_status: true, namespace: "default".into() };
                 let rv = { let mut m = st.lock().unwrap(); m.rv += 1; m.rv };
-                send(json!({"type": "ADDED", "object": s.json(rv)}).to_string());
+                send(&s.namespace, json!({"type": "ADDED", "object": s.json(rv)}).to_string());
                 model.push(format!("ap:{}", s.tok())); store.insert((s.namespace.clone(), s.name.clone()), s.clone());
                 let want = s.name.clone();
                 let ts = wait_for(&adapter, |ts| ts.iter().any(|t| t.identifier == want), 3000).await;
